@@ -1,6 +1,7 @@
 package main
 
 import (
+	"go/token"
 	"fmt"
 	"go/types"
 	"strings"
@@ -121,6 +122,29 @@ func checkC09Glue(c *Ctx, r *Report) {
 				r.Viol(string(s.kind), fmt.Sprintf("[%s glue] %s %s#%d", arch, name, shortInstr(s.instr), ord[k]), p.InstrPos(s.instr), s.detail+" (Go glue of the accelerated path; via "+t.describeLabels(fn, s.labels)+")")
 				clean = false
 			}
+			// the accelerated path must not hand secret data to code outside it that branches or indexes on it (the portable
+			// table-driven cipher): a static call from the glue to such a function is a sink at the call site, unless the
+			// call is the documented fallback behind "no assembler support" (dominated by the false side of candoAsm)
+			for _, b := range fn.Blocks {
+				for _, in := range b.Instrs {
+					call, ok := in.(ssa.CallInstruction)
+					if !ok {
+						continue
+					}
+					g := call.Common().StaticCallee()
+					if g == nil || !isRepoFunc(g) || inScope(g) || len(g.Blocks) == 0 {
+						continue
+					}
+					sink, where := firstSinkBelow(act, g, inScope, map[*ssa.Function]bool{})
+					if sink == nil || fallbackOnly(b) {
+						continue
+					}
+					k := name + "call" + g.Name()
+					ord[k]++
+					r.Viol("TAINTED-TO-TABLE-CODE", fmt.Sprintf("[%s glue] %s calls %s#%d", arch, name, p.FuncName(g), ord[k]), p.InstrPos(in), fmt.Sprintf("the accelerated path hands secret data to %s, where %s: %s", p.FuncName(where), string(sink.kind), sink.detail))
+					clean = false
+				}
+			}
 			if clean {
 				r.Ok("GLUE-NO-SECRET-DEPENDENT-CONTROL-OR-ADDRESS", fmt.Sprintf("[%s] %s", arch, name), p.Pos(fn.Pos()), "no branch, index or allocation size depends on key/plaintext/ciphertext/nonce/aad bytes")
 			}
@@ -194,6 +218,55 @@ func publicIntExpr(v ssa.Value, d int) bool {
 			return true
 		}
 		return false
+	}
+	return false
+}
+
+// firstSinkBelow: a secret-dependent sink in g or in a repository function g calls (outside the glue), as activated by the
+// taint solution
+func firstSinkBelow(act *Activation, g *ssa.Function, inScope func(*ssa.Function) bool, seen map[*ssa.Function]bool) (*tSink, *ssa.Function) {
+	if seen[g] || len(seen) > 200 {
+		return nil, nil
+	}
+	seen[g] = true
+	for _, s := range act.ActiveSinks(g) {
+		if s.kind == skBranch && s.verdictValue {
+			continue
+		}
+		sk := s
+		return &sk, g
+	}
+	for _, b := range g.Blocks {
+		for _, in := range b.Instrs {
+			if c, ok := in.(ssa.CallInstruction); ok {
+				if h := c.Common().StaticCallee(); h != nil && isRepoFunc(h) && !inScope(h) && len(h.Blocks) > 0 {
+					if s, w := firstSinkBelow(act, h, inScope, seen); s != nil {
+						return s, w
+					}
+				}
+			}
+		}
+	}
+	return nil, nil
+}
+
+// fallbackOnly: the block is reached only where the package-level switch candoAsm is false
+func fallbackOnly(b *ssa.BasicBlock) bool {
+	for _, ec := range edgeConds(b) {
+		v := ec.If.Cond
+		neg := false
+		if u, ok := v.(*ssa.UnOp); ok && u.Op == token.NOT {
+			v, neg = u.X, true
+		}
+		ld, ok := v.(*ssa.UnOp)
+		if !ok || ld.Op != token.MUL {
+			continue
+		}
+		if g, ok := ld.X.(*ssa.Global); ok && g.Name() == "candoAsm" {
+			if ec.Truth == neg {
+				return true
+			}
+		}
 	}
 	return false
 }
